@@ -7,7 +7,7 @@ use lef21::LefLibrary;
 use serde_json::{json, Value};
 
 pub fn commands() -> Vec<(&'static str, CmdFn)> {
-    vec![("lef_s2i", lef_s2i), ("lef_parse", lef_parse)]
+    vec![("lef_s2i", lef_s2i), ("lef_parse", lef_parse), ("lef_lex", lef_lex), ("lef_fault", lef_fault), ("lef_prefixes", lef_prefixes), ("lef_scaling", lef_scaling)]
 }
 
 fn strip_vk(v: &Value) -> Value {
@@ -84,4 +84,115 @@ fn lef_parse(case: &Value) -> Value {
         Ok(Err(e)) => json!({"id": id(case), "outcome":"err", "msg": err_str(e)}),
         Ok(Ok(l)) => json!({"id": id(case), "outcome":"ok", "lib": lib_json(&l)}),
     }
+}
+
+fn class_char(c: &str, n: u64, i: usize) -> &'static str {
+    match (c, n) {
+        ("NL", _) => "\n", ("WS", _) => if i % 2 == 0 { " " } else { "\t" }, ("SEMI", _) => ";", ("QUOTE", _) => "\"", ("HASH", _) => "#",
+        ("DIGIT", _) => "1", ("DOT", _) => ".", ("MINUS", _) => "-",
+        ("ALPHA", 1) => "a", ("ALPHA", 2) => "é", ("ALPHA", _) => "中",
+        ("OTHER", 1) => "(", _ => "😀",
+    }
+}
+fn tok_json(t: &lef21::verif::Token) -> Value {
+    let v = serde_json::to_value(t).unwrap();
+    json!({"t": v["ttype"], "start": v["loc"]["start"], "stop": v["loc"]["stop"], "line": v["loc"]["line"]})
+}
+/// scalar span facts of a token list over `text` (property level): on char boundaries, non-empty, increasing, inside
+fn span_facts(text: &str, toks: &[Value]) -> Value {
+    let mut ok = true;
+    let mut last = 0u64;
+    for t in toks {
+        let (a, b) = (t["start"].as_u64().unwrap(), t["stop"].as_u64().unwrap());
+        if !(a < b && b as usize <= text.len() && text.is_char_boundary(a as usize) && text.is_char_boundary(b as usize) && a >= last) { ok = false; }
+        last = b;
+    }
+    json!({"spans_ok": ok, "ntoks": toks.len(), "nchars": text.chars().count()})
+}
+
+/// S->I for the lexer model: {chars:[{c,n}], status, toks}
+fn lef_lex(case: &Value) -> Value {
+    let text: String = geta(case, "chars").iter().enumerate().map(|(i, c)| class_char(c["c"].as_str().unwrap(), c["n"].as_u64().unwrap(), i)).collect();
+    let lexed = guarded(|| lef21::verif::verif_tokens(&text));
+    let parsed = guarded(|| parse_str(&text).is_ok());
+    let mut out = json!({"id": id(case), "outcome":"ok", "text": text, "parse": match parsed { Ok(b) => json!(if b {"ok"} else {"err"}), Err(p) => json!({"panic": p}) }});
+    match lexed {
+        Err(p) => { out["lex"] = json!({"outcome":"panic","msg":p}); }
+        Ok(Err(e)) => { out["lex"] = json!({"outcome":"err","msg":err_str(e)}); }
+        Ok(Ok(t)) => { let tj: Vec<Value> = t.iter().map(tok_json).collect(); out["facts"] = span_facts(&text, &tj); out["lex"] = json!({"outcome":"ok","toks":tj}); }
+    }
+    out
+}
+
+fn roundtrip_no_crash(lib: &LefLibrary) -> Value {
+    match guarded(|| lib.to_string()) {
+        Err(p) => json!({"stage":"write","outcome":"panic","msg":p}),
+        Ok(Err(_)) => json!({"stage":"write","outcome":"err"}),
+        Ok(Ok(w)) => match guarded(|| parse_str(&w).is_ok()) {
+            Err(p) => json!({"stage":"reread","outcome":"panic","msg":p}),
+            Ok(b) => json!({"stage":"reread","outcome": if b {"ok"} else {"err"}}),
+        },
+    }
+}
+fn parse_outcome(text: &str) -> Value {
+    let facts = match guarded(|| lef21::verif::verif_tokens(text)) {
+        Err(p) => json!({"lex_panic": p}),
+        Ok(Err(_)) => json!({"lex":"err"}),
+        Ok(Ok(t)) => span_facts(text, &t.iter().map(tok_json).collect::<Vec<_>>()),
+    };
+    match guarded(|| parse_str(text)) {
+        Err(p) => json!({"outcome":"panic","msg":p,"facts":facts}),
+        Ok(Err(e)) => { let _ = format!("{}", e); json!({"outcome":"err","facts":facts}) }   // formatting the error must not crash either
+        Ok(Ok(l)) => json!({"outcome":"ok","rt": roundtrip_no_crash(&l),"facts":facts}),
+    }
+}
+/// one faulted token list: {toks}
+fn lef_fault(case: &Value) -> Value {
+    let text = render(geta(case, "toks"), (geti(case, "v") % 3) as u32, (geti(case, "v") % 4) as u32, 0);
+    let mut o = parse_outcome(&text);
+    o["id"] = id(case);
+    if o["outcome"] == "panic" { o["text"] = trunc(&json!(text)); }
+    o
+}
+/// every character-boundary prefix of a valid text: {toks, sep}
+fn lef_prefixes(case: &Value) -> Value {
+    let text = render(geta(case, "toks"), 0, geti(case, "sep") as u32, 0);
+    let mut counts = std::collections::BTreeMap::new();
+    let mut bad: Vec<Value> = Vec::new();
+    let idx: Vec<usize> = text.char_indices().map(|(i, _)| i).chain(std::iter::once(text.len())).collect();
+    for &i in &idx {
+        let o = parse_outcome(&text[..i]);
+        *counts.entry(o["outcome"].as_str().unwrap().to_string()).or_insert(0u64) += 1;
+        let spans_bad = o["facts"].get("spans_ok").map(|b| b == false).unwrap_or(false) || o["facts"].get("lex_panic").is_some();
+        let rt_bad = o.get("rt").map(|r| r["outcome"] == "panic").unwrap_or(false);
+        if (o["outcome"] == "panic" || spans_bad || rt_bad) && bad.len() < 3 { bad.push(json!({"prefix_bytes": i, "o": o})); }
+    }
+    json!({"id": id(case), "outcome":"ok", "prefixes": idx.len(), "counts": counts, "bad": bad})
+}
+/// wall-clock scaling of the three unbounded loops: point lists, PROPERTY pairs, BEGINEXT bodies
+fn lef_scaling(case: &Value) -> Value {
+    let n0 = geti(case, "n") as usize;
+    let mut rows = Vec::new();
+    for kind in ["points", "property", "beginext"] {
+        let mut ts = Vec::new();
+        for mult in [1usize, 2, 4, 8] {
+            let n = n0 * mult;
+            let body: String = match kind {
+                "points" => format!("MACRO m OBS LAYER l ; POLYGON {} ; END END m", (0..n).map(|i| format!("{} {}", i, i + 1)).collect::<Vec<_>>().join(" ")),
+                "property" => format!("MACRO m PROPERTY {} ; END m", (0..n).map(|i| format!("p{} v{}", i, i)).collect::<Vec<_>>().join(" ")),
+                _ => format!("BEGINEXT \"t\" {} ENDEXT", (0..n).map(|i| format!("w{}", i)).collect::<Vec<_>>().join(" ")),
+            };
+            let mut best = f64::MAX;
+            for _ in 0..3 {
+                let t0 = std::time::Instant::now();
+                let r = parse_str(&body);
+                let dt = t0.elapsed().as_secs_f64();
+                if r.is_err() { return json!({"id": id(case), "outcome":"ok", "error": format!("scaling input {kind} rejected: {}", err_str(r.err().unwrap()))}); }
+                if dt < best { best = dt; }
+            }
+            ts.push(best);
+        }
+        rows.push(json!({"kind": kind, "n": n0, "times": ts}));
+    }
+    json!({"id": id(case), "outcome":"ok", "rows": rows})
 }
